@@ -533,6 +533,7 @@ type ParamSpec struct { // contract for a function-typed parameter
 }
 
 type Contract struct {
+	ReadonlyWhen []Clause
 	FuncName  string // as written: e.g. poolFor, (*Allocator).Assign, or fully qualified for stubs
 	Pkg       string // package path
 	Requires  []Clause
@@ -628,7 +629,7 @@ type SpecFile struct {
 var directiveWords = map[string]bool{
 	"func": true, "requires": true, "ensures": true, "modifies": true, "loop": true, "pred": true, "fun": true,
 	"ufun": true, "axiom": true, "lemma": true, "pure": true, "check": true, "immutable": true, "trusted": true,
-	"inline": true, "package": true, "allocates": true, "pureparam": true, "denotes": true, "assert": true, "guarded_by": true, "havocs": true, "opaque": true, "reads": true, "call": true,
+	"inline": true, "package": true, "allocates": true, "pureparam": true, "denotes": true, "assert": true, "guarded_by": true, "havocs": true, "opaque": true, "reads": true, "call": true, "readonly": true,
 }
 
 // parseSpecText parses the joined text of //@ lines. lines carries (text,lineNo).
@@ -796,6 +797,21 @@ func parseSpecLines(file string, pkg string, lines []specLine) (*SpecFile, error
 			cur.Denotes = e
 			cur.DenotesText = d.text
 			cur.Pure = true
+		case "readonly":
+			// readonly when <expr>: when expr holds on return, no cell of an object allocated before the call was written
+			if cur == nil {
+				return nil, errf("readonly outside func")
+			}
+			tx := strings.TrimSpace(d.text)
+			if !strings.HasPrefix(tx, "when ") {
+				return nil, errf("readonly: expected 'readonly when <expr>'")
+			}
+			tx = strings.TrimSpace(tx[5:])
+			e, err := ParseExpr(tx)
+			if err != nil {
+				return nil, errf("%v", err)
+			}
+			cur.ReadonlyWhen = append(cur.ReadonlyWhen, Clause{Text: tx, E: e, File: file, Line: d.line})
 		case "allocates":
 			if cur == nil {
 				return nil, errf("allocates outside func")
